@@ -1,9 +1,9 @@
 # Registered checks: property -> engines and budgets per tier.
 # batches x runs = simulated cases of the plain binary; race_* = the same engine in the -race binary.
 CHECKS = {
-    "C18": dict(engines=["c18"], level="exploration", gotree_bin=True,
-                quick=dict(batches=16, runs=400, timeout=900),
-                thorough=dict(batches=64, runs=2500, timeout=3000)),
+    "C18": dict(engines=["c18", "c18thr"], level="exploration", gotree_bin=True, race_engines=["c18thr"],
+                quick=dict(batches=16, runs=300, race_batches=8, race_runs=25, timeout=900),
+                thorough=dict(batches=64, runs=2500, race_batches=32, race_runs=150, timeout=3000)),
     "C17": dict(engines=["c17"], level="exploration",
                 quick=dict(batches=16, runs=800, timeout=900),
                 thorough=dict(batches=64, runs=3000, timeout=3000)),
@@ -65,7 +65,8 @@ TEXTS = {
                    "simulated, goroutines run under the deterministic scheduler, and the process boundary is crossed with the instrumented binary. 76 command templates "
                    "(generators, randomised edits, sampling, pruning, renaming, format conversion, consensus, supports, comparisons, acr/asr incl. protein alignments with X) "
                    "run in-process through cmd.RootCmd with --seed fixed under seam settings A, B and A again, and as separate processes under both map seeds; all outputs "
-                   "must be byte-identical (per-tree records of threaded commands after sorting lines, documented date lines masked). Sampling: evidence, not proof.",
+                   "must be byte-identical (per-tree records of threaded commands after sorting lines, documented date lines masked). The threaded templates also run in the "
+                   "-race binary (engine c18thr): a data race between workers is a result that may differ between runs. Sampling: evidence, not proof.",
         design_ref="§3.4, §4 C18",
         level_note="Map ranges inside dependencies (goalign, cobra) are not behind the seam and keep Go's native randomisation (which is itself varied by the cross-process runs). "
                    "Flags are reset to their defaults before every in-process execution. Memory addresses are varied only by process restarts. go1.26.8 runtime with go1.21 "
@@ -145,11 +146,14 @@ TEXTS = {
         design_ref="§4 C10", level_note=PIPE_NOTE + " Excluded: the branch above a root child whose split is trivial (n-1|1) - the statement speaks of inner branches.",
         technique="deterministic simulation: seeded scheduler + channel fault injection over the bootstrap-support pipelines, oracle = brute-force transfer distance"),
     "C11": dict(
-        level_text="Seeded search over goroutine interleavings, thread counts and fault positions of the real worker pools (Compare, CompareWeighted, FBP, TBE) "
-                   "under a deterministic scheduler; each case is checked against its own sequential run, against a deadlock/step-budget detector and, in a second "
+        level_text="Seeded search over goroutine interleavings, thread counts and fault positions of the real worker pools (Compare, CompareWeighted, FBP, TBE), driven "
+                   "directly (engine c11) and through the commands `compare trees [--weighted]`, `compute support fbp|tbe` run in-process via cobra (engine c11cli), under a "
+                   "deterministic scheduler with pre-emption at every channel / WaitGroup / lock / shared-variable point and at drawn statement counts inside callee code; "
+                   "each case is checked against its own sequential run, against a deadlock / step-budget detector, for the error reaching the caller, and, in a second "
                    "binary, by the Go race detector kept live under the serialised schedule. Sampling: a clean run is evidence, not proof.",
         design_ref="§3.2, §4 C11",
-        level_note="Interleavings are explored at hook granularity (channel, WaitGroup, lock and shared-variable statements found by type in the current AST); "
-                   "dependencies run un-instrumented; go1.26.8 runtime with go1.21 GODEBUG defaults.",
+        level_note="Interleavings are explored at hook granularity (channel, WaitGroup, lock and shared-variable statements found by type in the current AST, plus up to three "
+                   "counted pre-emption points per run before arbitrary statements of packages support, tree, io/utils, io/fileutils); never inside one statement - a racy "
+                   "read-modify-write in a single statement is the race detector's job. Dependencies run un-instrumented; go1.26.8 runtime with go1.21 GODEBUG defaults.",
         technique="deterministic simulation: seeded goroutine scheduler over synctest + channel fault injection + race detector, oracle = sequential run"),
 }
